@@ -32,8 +32,9 @@ LEVEL_NOTE = ('Trusted: Coq kernel, the hand-written model Cleanup.v, the harnes
               'tiles of the selected levels that intersect the coverage; that hypothesis is checked by Coq on every walk the '
               'real TileWalker performed in the correspondence run.  Time is modelled in integer ticks (4 per second in the '
               'harness); SQLite datetime() and time.mktime are exercised with TZ=UTC only.  Symlinked single-colour tiles, '
-              'dry_run, progress stores, grids with origin ul and runs in which cleanup() raises (known finding '
-              'level-db-unlinked-twice) are outside the model; cleanup_tasks models the loop over tasks for runs that do not raise.')
+              'dry_run, progress stores and grids with origin ul are outside the model.  cleanup_tasks models the loop over '
+              'tasks; the several-tasks stream runs 2-4 tasks on one tile manager in one cleanup() call (all backends, mixed '
+              'strategies, the same level removed twice) and reports any exception of cleanup() as a property failure.')
 DESIGN_REF = 'DESIGN.md section 5, C12'
 RULE = ('case = (backend, layout, grid, meta size, contents with mtimes, task levels / remove time / remove_all / coverage); '
         'non-trivial = at least one tile removed and one tile kept, or a tile within one second of the remove time; '
@@ -48,9 +49,8 @@ ASSUMPTIONS = ['TileWalker processes exactly the meta tiles of the selected leve
                'localtime = UTC for the SQLite datetime comparison; file system keeps sub-second mtimes',
                'coverages are axis-parallel boxes that overlap a meta tile either not at all or by at least half a tile '
                '(no slivers below the 1/10 pixel inset of get_affected_level_tiles)']
-EXPLANATION = ('remaining = spec_remaining proved per strategy for all contents/tasks; F15 (dimension directories), '
-               'tms level-directory naming and GeopackageLevelCache remove_before are refuted on the model and reproduced '
-               'on the implementation as known findings')
+EXPLANATION = ('remaining = spec_remaining proved per strategy for all contents/tasks; F15 (dimension directories) is refuted '
+               'on the model and reproduced on the implementation as known finding')
 
 WATCHDOG = 180             # seconds one cleanup() may take (a normal case takes 0.1 s)
 
@@ -432,12 +432,6 @@ def oracle(ctx, case, obs):
                 if e['dim'] != 0:
                     sig = 'F15-dimension-tiles-survive,strategy=%s' % strat
                     what = 'tile stored below a dimension directory survives'
-                elif b == 'file:tms' and strat == 'dir' and e['l'] < 10:
-                    sig = 'tms-level-directory-name,strategy=dir'
-                    what = 'tile of a tms-layout cache (directory "%d", cleaned directory "%02d") survives' % (e['l'], e['l'])
-                elif b == 'gpkglevel' and strat == 'cache' and not t['all']:
-                    sig = 'gpkglevel-remove-before,strategy=cache'
-                    what = 'tile of a per-level geopackage cache (supports_timestamp inherited True, no timestamps stored) survives'
                 else:
                     sig = 'old-tile-survives,strategy=%s' % strat
                     what = 'tile of a selected level, older than the remove time, meta tile intersecting the coverage, survives'
@@ -809,12 +803,24 @@ def run(ctx):
     run_cases(ctx, cases, 'generated', budget=ctx.n(100, 780))
     # 2b. several tasks in one cleanup() call (correspondence of the task loop; single-task oracle not applied)
     terms, descr = [], []
+    multi = []
+    for b in ('sqlite', 'gpkglevel', 'compact2', 'file:tc'):   # the same level removed twice / removed then cleaned again
+        t1 = {'levels': [0, 2], 'T': 40 * Q, 'all': True, 'complete': True, 'cov': [0, 0, 1024, 1024]}
+        t3 = dict(t1, all=not supports_timestamp(b), levels=[1, 2])
+        multi.append({'backend': b, 'grid': 'g3', 'meta': [2, 2], 'guarded': True, 'concurrency': 1,
+                      'tasks': [t1, dict(t1), t3, dict(t1, levels=[2])],
+                      'entries': [{'kind': 'tile', 'dim': 0, 'l': 2, 'x': 1, 'y': 1, 't': 120},
+                                  {'kind': 'tile', 'dim': 0, 'l': 1, 'x': 1, 'y': 0, 't': 200},
+                                  {'kind': 'tile', 'dim': 0, 'l': 1, 'x': 0, 'y': 0, 't': 120},
+                                  {'kind': 'tile', 'dim': 0, 'l': 0, 'x': 0, 'y': 0, 't': 120}]})
     for _ in range(ctx.n(25, 250)):
         case = gen_case(rng)
         other = gen_case(rng, backend=case['backend'], grid=case['grid'], force={'meta': tuple(case['meta'])})
         case['tasks'] = [case.pop('task'), other['task']]
         if rng.random() < 0.3:
             case['tasks'].append(dict(case['tasks'][0], all=not case['tasks'][0]['all'] or not supports_timestamp(case['backend'])))
+        multi.append(case)
+    for case in multi:
         try:
             obs = run_impl(ctx, case)
         except Exception as ex:
@@ -823,15 +829,7 @@ def run(ctx):
         ctx.case(json.dumps(case, sort_keys=True), True, None)
         ctx.count('tasks=%d' % len(case['tasks']))
         if obs['raised']:
-            twice = case['backend'] in ('sqlite', 'gpkglevel') and any(
-                a['all'] and b['all'] and a['complete'] and b['complete'] and set(a['levels']) & set(b['levels'])
-                for i, a in enumerate(case['tasks']) for b in case['tasks'][i + 1:])
-            if twice and obs['raised'].startswith('FileNotFoundError'):
-                # known finding; an aborted run is outside the model (cleanup_tasks models runs that do not raise)
-                ctx.fail('level-db-unlinked-twice', 'cleanup() of two remove_all tasks that share a level of a per-level '
-                         'sqlite/geopackage cache raised %s; the remaining tasks were not run' % obs['raised'].split(':')[0],
-                         {'case': case, 'observed': obs})
-                continue
+            # cleanup() never raises in the model; the implementation case is still compared (cannot match)
             ctx.fail('cleanup-raised,backend=%s' % case['backend'].split(':')[0], 'cleanup() raised %s' % obs['raised'],
                      {'case': case, 'observed': obs})
         levels = set(l for t in case['tasks'] for l in t['levels'])
